@@ -1,6 +1,8 @@
 package rules
 
 import (
+	"go/constant"
+	"go/token"
 	"go/types"
 	"strings"
 
@@ -183,6 +185,36 @@ func runC14(c *Ctx) {
 		// applies only in appendBlockAndFilter mode: effect = the write reached through that mode's branch;
 		// evaluate on the failure edge instead: from the mismatch edge no write is reachable
 		c.guarded(fn, g, 1, "writeHeadersToTargetStores", w, 1, gFailEdge)
+		// block+filter mode: every filter batch written carries the block hash of
+		// its last entry (it becomes the filter store's tip pointer), not only the
+		// final batch of the region
+		setLast := c.funcObj("chainimport", "setLastFilterHeaderHash")
+		var modeCmps []ssa.Instruction
+		ir.Instrs(fn, func(in ssa.Instruction) {
+			b, ok := in.(*ssa.BinOp)
+			if !ok || b.Op != token.EQL || !isParam(fn, len(fn.Params)-1)(b.X) {
+				return
+			}
+			if k, isC := ir.ConstInt(b.Y); isC && k == c.importConst("appendBlockAndFilter") {
+				modeCmps = append(modeCmps, in)
+			}
+		})
+		gm := equalIs("appendMode vs appendBlockAndFilter", modeCmps, true)
+		var badW []string
+		for _, st := range c.successEdges(gm) {
+			ir.Walk(st.b, st.idx, nil, func(in ssa.Instruction) bool {
+				if callTo(setLast)(in) {
+					return false
+				}
+				for _, x := range w {
+					if x == in {
+						badW = append(badW, c.at(in))
+					}
+				}
+				return true
+			})
+		}
+		c.verdict(len(gm.sites) >= 1 && len(badW) == 0, c.nm(fn)+" | block+filter mode: setLastFilterHeaderHash precedes every write", c.P.Pos(fn.Pos()), "each written filter batch names the block of its last entry", "in block+filter mode a batch can be written without setLastFilterHeaderHash (write at "+join(badW)+"): the filter store's tip pointer is then a zero hash until a later batch repairs it, so an import that stops in between leaves the filter store unreadable")
 		tip := c.method("headerfs", "BlockHeaderStore", "ChainTip")
 		fh := c.field("headerfs", "FilterHeader", "Height")
 		hc := find(fn, binops(eqOps, func(v ssa.Value) bool { return ir.DerivesFrom(v, valIsCallTo(tip)) }, loadsField(fh)))
@@ -206,4 +238,13 @@ func runC14(c *Ctx) {
 		}
 		c.verdict(okSame, c.nm(fa)+" | block and filter iterators cover the same converted index range", c.P.Pos(fa.Pos()), "same (sourceStartIdx, sourceEndIdx) from targetHeightToImportSourceIndex", "the two import iterators do not cover the same index range derived from the region's heights", c.ats(its)...)
 	})
+}
+
+func (c *Ctx) importConst(name string) int64 {
+	k, ok := c.P.Pkg("chainimport").Scope().Lookup(name).(*types.Const)
+	if !ok {
+		panic(anchorErr{"const chainimport." + name})
+	}
+	v, _ := constant.Int64Val(k.Val())
+	return v
 }
